@@ -25,7 +25,7 @@ Definition oval (s : obs) : N := be_val (obytes s) * 2 ^ (64 - o_avail s) + o_cu
 Record BInv (s : obs) : Prop := {
   b_open : o_closed s = false;
   b_size : 16 <= o_size s;
-  b_pos : o_pos s + 8 < o_size s;
+  b_pos : o_pos s + 8 <= o_size s;
   b_written : o_written s = (8 * Z.of_nat (length (o_out s)))%Z
 }.
 
